@@ -31,7 +31,9 @@ def load_module(name, source):
 def norm(brief):
     """Outcome image compared across a restart: value text, or the failure classes.  WHICH of several missing
     keys a failure names depends on set iteration order, i.e. on the interpreter's hash seed (DESIGN 2.10 item 2)."""
-    return brief[:2] if brief and brief[0] == "err" else brief
+    side = [x for x in brief if isinstance(x, list) and x and x[0] == "side"]
+    core_ = [x for x in brief if not (isinstance(x, list) and x and x[0] == "side")]
+    return (core_[:2] if core_ and core_[0] == "err" else core_) + side
 
 
 def world_over(objs):
@@ -54,6 +56,9 @@ def apply_structural(world, op):
             return "accepted"
         except Exception as e:  # noqa: BLE001
             return "refused:" + type(e).__name__
+    if op["op"] in ("disable_effects", "enable_effects"):
+        getattr(world.prog.obj[op["ds"]], op["op"])()
+        return op["op"]
     if op["op"] == "register_node":
         world.prog.obj[op["ds"]].register(op["alias"], world.prog.obj[op["n"]])
         return "registered"
@@ -82,7 +87,10 @@ def child_continue(item):
             if st is not None:
                 outs.append(["struct", st])
                 continue
-            outs.append(w.do(op).brief())
+            before = w.snapshot_counts()
+            b = w.do(op).brief()
+            side = sorted((k[0], k[1], c) for k, c in w.diff_counts(before, w.counts).items() if k[0] in ("effect", "callback"))
+            outs.append(b + [["side", side]])
         return {"outs": outs}
     finally:
         sys.path.remove(tmp)
@@ -144,6 +152,9 @@ class C20(HistoryProperty):
                     o.setdefault("NSP", {})["REQ"] = "r"
                 after.insert(rng.randrange(len(after) + 1), {"op": rng.choice(["evaluate", "keys", "validate"]), "node": f"ns{k + 1}", "o": o})
         pre = []
+        with_effects = [x for x in spec["roots"] if gen.node_by_id(spec, x)["k"] == "dataset" and gen.node_by_id(spec, x).get("effects")]
+        if with_effects and rng.random() < 0.5:
+            pre.append({"op": "disable_effects", "ds": rng.choice(with_effects)})
         if rng.random() < 0.35:
             # a cyclic graph: an overload of D that (indirectly) refers back to D through a with_options derivative of D
             # which forces the dispatch key to an unregistered value (so evaluation terminates)
@@ -200,12 +211,21 @@ class C20(HistoryProperty):
                                 break
                         continue
                     before = ref.count("body")
+                    rb = ref.snapshot_counts()
                     out = ref.do(op)
-                    op.setdefault("_ref", out.brief())
+                    rside = sorted((k[0], k[1], c) for k, c in ref.diff_counts(rb, ref.counts).items() if k[0] in ("effect", "callback"))
+                    op.setdefault("_ref", out.brief() + [["side", [list(x) for x in rside]]])
                     if copy_w is not None:
                         b2 = copy_w.count("body")
+                        cb = copy_w.snapshot_counts()
                         got = copy_w.do(op)
+                        cside = sorted((k[0], k[1], c) for k, c in copy_w.diff_counts(cb, copy_w.counts).items() if k[0] in ("effect", "callback"))
                         compared += 1
+                        if cside != rside:
+                            # same values but other side behaviour: effects that the original runs / suppresses
+                            res.violate("behaviour-differs-after-round-trip", op_index=i, node=op["node"], o=op["o"], op_kind=op["op"], what="effects / callbacks run",
+                                        original=[list(x) for x in rside], reloaded=[list(x) for x in cside])
+                            break
                         res.bump("ops_compared_after_restart")
                         if copy_w.count("body") == b2 and ref.count("body") == before and op["op"] == "evaluate" and out.ok:
                             carried_hit = True
